@@ -99,22 +99,35 @@ func TestVerif_C21(t *testing.T) {
 				continue
 			}
 			op := &vC21Op{kind: kind, snap: c, txs: []*common.VersionedTransaction{tx}}
-			// an ordinary snapshot of another chain, certified on the same checkpoint state
-			var inj *vC21Op
-			for tries := 0; tries < 5 && inj == nil; tries++ {
-				other := f.net.NodeIds[rng.Intn(len(f.net.NodeIds))]
-				if other == chainId {
-					continue
+			// ordinary snapshots of another chain, certified on the same checkpoint state: one with a single
+			// transaction and one batching two transactions
+			var injs []*vC21Op
+			for _, ntx := range []int{1, 2} {
+				var inj *vC21Op
+				for tries := 0; tries < 5 && inj == nil; tries++ {
+					other := f.net.NodeIds[rng.Intn(len(f.net.NodeIds))]
+					if other == chainId {
+						continue
+					}
+					var deps []*common.VersionedTransaction
+					var hs []crypto.Hash
+					for k := 0; k < ntx; k++ {
+						dep, _ := w.Deposit(assets[1+rng.Intn(3)], big.NewInt(int64(1+rng.Intn(1e6))))
+						deps = append(deps, dep)
+						hs = append(hs, dep.PayloadHash())
+					}
+					y, err := f.nextSnapshot(other, hs, ts+uint64(1+rng.Intn(1000)))
+					if err != nil {
+						continue
+					}
+					if _, err := f.sign(y, 0); err != nil {
+						continue
+					}
+					inj = &vC21Op{kind: fmt.Sprintf("ordinary-%d-tx", ntx), snap: y, txs: deps}
 				}
-				dep, _ := w.Deposit(assets[1+rng.Intn(3)], big.NewInt(int64(1+rng.Intn(1e6))))
-				y, err := f.nextSnapshot(other, []crypto.Hash{dep.PayloadHash()}, ts+uint64(1+rng.Intn(1000)))
-				if err != nil {
-					continue
+				if inj != nil {
+					injs = append(injs, inj)
 				}
-				if _, err := f.sign(y, 0); err != nil {
-					continue
-				}
-				inj = &vC21Op{kind: "ordinary", snap: y, txs: []*common.VersionedTransaction{dep}}
 			}
 			cursor := f.cursor
 			f.stop()
@@ -122,7 +135,7 @@ func TestVerif_C21(t *testing.T) {
 			if err := verifCopyDir(live, ckpt); err != nil {
 				t.Fatal(err)
 			}
-			c1, d1 := vC21Enumerate(t, r, f.net, scratch, label, ckpt, op, inj)
+			c1, d1 := vC21Enumerate(t, r, f.net, scratch, label, ckpt, op, injs)
 			cuts += c1
 			durable += d1
 			// continue the live history with the uncut delivery
@@ -160,7 +173,7 @@ func TestVerif_C21(t *testing.T) {
 }
 
 // vC21Enumerate cuts the finalization of op at every storage-call boundary.
-func vC21Enumerate(t *testing.T, r *verifkit.Run, net *verifgen.Net, scratch, label, ckpt string, op, inj *vC21Op) (int, int) {
+func vC21Enumerate(t *testing.T, r *verifkit.Run, net *verifgen.Net, scratch, label, ckpt string, op *vC21Op, injs []*vC21Op) (int, int) {
 	run := filepath.Join(scratch, label, "run")
 	rng := r.Fork("c21-run", 0)
 	// learn the call sequence
@@ -194,12 +207,14 @@ func vC21Enumerate(t *testing.T, r *verifkit.Run, net *verifgen.Net, scratch, la
 	}
 	cuts, durable := 0, 0
 	for k := 0; k <= len(seq); k++ {
-		for _, inject := range []bool{false, true} {
+		variants := append([]*vC21Op{nil}, injs...)
+		for _, inj := range variants {
+			inject := inj != nil
 			method := "end"
 			if k < len(seq) {
 				method = seq[k].Method
 			}
-			if inject && (inj == nil || method == "WriteSnapshot") {
+			if inject && method == "WriteSnapshot" {
 				continue // inside TopoWrite the topology lock excludes another chain's finalization
 			}
 			if err := verifCopyDir(ckpt, run); err != nil {
@@ -264,18 +279,22 @@ func vC21Enumerate(t *testing.T, r *verifkit.Run, net *verifgen.Net, scratch, la
 				continue
 			}
 			durable++
-			inj := "alone"
+			injName := "alone"
 			if inject {
-				inj = "other-chain-snapshot-interleaved"
+				injName = "other-chain-snapshot-interleaved"
 			}
-			r.Nontrivial(fmt.Sprintf("%s|%d|%s|%s", op.kind, k, method, inj))
+			r.Nontrivial(fmt.Sprintf("%s|%d|%s|%s|%v", op.kind, k, method, injName, inject && len(inj.txs) > 1))
 			r.Count("cuts_after_the_snapshot_was_durable", 1)
 			ok := lerr == nil && last != nil && (last.PayloadHash() == op.snap.Hash || last.Timestamp > op.snap.Timestamp)
 			if !ok {
-				r.Violation(fmt.Sprintf("C21|before:%s|%s", method, inj),
+				injDesc := injName
+				if inject {
+					injDesc = injName + " (" + inj.kind + ")"
+				}
+				r.Violation(fmt.Sprintf("C21|before:%s|%s", method, injName),
 					fmt.Sprintf("%s snapshot is durably finalized (topology %d) but after a stop before %s (%s) and restart the last recorded consensus snapshot is an older one",
-						op.kind, stored.TopologicalOrder, method, inj),
-					map[string]any{"operation": op.kind, "cut_before_call": k, "method": method, "injection": inj, "calls": names,
+						op.kind, stored.TopologicalOrder, method, injDesc),
+					map[string]any{"operation": op.kind, "cut_before_call": k, "method": method, "injection": injDesc, "calls": names,
 						"snapshot": op.snap.Hash.String(), "last_recorded": fmt.Sprint(last)})
 			}
 		}
